@@ -55,3 +55,9 @@ func VerifResetResolve(src []byte) ([]string, error) {
 	}
 	return paths, err
 }
+
+// VerifSetNameFromKeyErr / VerifNormalizeNetworksErr: the two Normalize helpers with the error they now report for
+// sections of the wrong kind (the older Verif wrappers of verif_export.go drop it).
+func VerifSetNameFromKeyErr(dict map[string]any) error { return setNameFromKey(dict) }
+
+func VerifNormalizeNetworksErr(dict map[string]any) error { return normalizeNetworks(dict) }
